@@ -7,7 +7,7 @@
    of C20_projection: the observations of document i in the schedule, in order, are those of
    its solo run; the global digest never changes; nothing mutable is shared. *)
 From Coq Require Import List NArith Arith Bool.
-From PC Require Import Model.Isolation.
+From PC Require Import Base.Outcome Base.Libs Model.Errors Model.Isolation Model.IsolationSteps.
 Import ListNotations.
 
 Definition obs := N.
@@ -19,9 +19,29 @@ Fixpoint list_eqb (a b : list N) : bool :=
   | _, _ => false
   end.
 
+(* the concrete step model of Model/IsolationSteps.v on the implementation's own data: for a
+   document, the classes passed to its successive ignoreErrors calls (the load's `ignore` first) and
+   the mask observed on the document afterwards *)
+Definition mask_obs := (list (list dcls) * list dcls)%type.
+
+Fixpoint dcls_list_eqb (a b : list dcls) : bool :=
+  match a, b with
+  | [], [] => true
+  | x :: a', y :: b' => dcls_eqb x y && dcls_list_eqb a' b'
+  | _, _ => false
+  end.
+
+Definition classes_of (m : mask) : list dcls :=
+  flat_map (fun e => match e with MCls k => [k] | _ => [] end) m.
+
+Definition mask_ok (m : mask_obs) : bool :=
+  let ops := map (fun cs => OIgnore (IAdd (map MCls cs))) (fst m) in
+  let d := fst (solo dstep (CG [] 0%N []) (CD [] [] 0%N []) ops) in
+  dcls_list_eqb (classes_of (dm_mask d)) (snd m).
+
 (* ndocs, schedule with the observation of every step, solo observations per document,
-   global digests (before, after) per step or barrier, shared mutable objects *)
-Definition case := (nat * list (nat * obs) * list (list obs) * list (N * N) * nat)%type.
+   global digests (before, after) per step or barrier, shared mutable objects, mask observations *)
+Definition case := (nat * list (nat * obs) * list (list obs) * list (N * N) * nat * list mask_obs)%type.
 
 Definition projection_ok (ndocs : nat) (sc : list (nat * obs)) (solo : list (list obs)) : bool :=
   forallb (fun i => list_eqb (outputs_of i sc) (nth i solo [])) (seq 0 ndocs)
@@ -35,8 +55,8 @@ Definition global_ok (gs : list (N * N)) : bool :=
   end.
 
 Definition case_ok (c : case) : bool :=
-  let '(ndocs, sc, solo, gs, shared) := c in
-  projection_ok ndocs sc solo && global_ok gs && Nat.eqb shared 0.
+  let '(ndocs, sc, solo, gs, shared, masks) := c in
+  projection_ok ndocs sc solo && global_ok gs && Nat.eqb shared 0 && forallb mask_ok masks.
 
 Fixpoint mismatches_from (i : nat) (cs : list case) : list nat :=
   match cs with
